@@ -1053,7 +1053,7 @@ def check_C17(ctx):
             add('age gt 18', A_, 'tier eq 2', o_, 'law-nonascii')
             add('tier eq 2', 'age gt 18', A_, o_, 'law-nonascii')
     # A nested exactly d deep in plain parentheses, d at round limits: the two sides of a law nest differently
-    for d_ in ([127, 128, 255, 256, 999, 1000, 1023, 1024, 4095, 4096] if ctx.quick else [63, 64, 127, 128, 255, 256, 511, 512, 999, 1000, 1023, 1024, 4095, 4096, 9999, 10000, 16383, 16384, 65535, 65536, 99999, 100000]):
+    for d_ in ([127, 128, 255, 256, 999, 1000, 1023, 1024, 4095, 4096] if ctx.quick else [63, 64, 127, 128, 255, 256, 511, 512, 999, 1000, 1023, 1024, 4095, 4096, 9999, 10000, 16383, 16384]):
         for leaf_ in (('t pr', 'zz pr') if d_ < 2000 else ('t pr',)):
             A_ = '(' * d_ + leaf_ + ')' * d_
             laws_ = law_pairs(A_, 'k eq 1', 'k eq 2')[:7]
